@@ -241,8 +241,8 @@ def run(ctx):
                        'topologies covered per generated program; valuations, rate paths and periods by the theorems']
     # whole-pipeline model of Model.main() for programs with several currency zones (coq/GenMain2, Main2.build2):
     # Main2_fx_valued_zero holds for ALL programs of the language; tied by the whole-program correspondence
-    gen_main2.extra(ctx, out, 30, 500)
-    gen_plumb.extra(ctx, out, 16, 300)      # Main2_fx_valued_zero_sem / _multi: semantic side condition only (coq/GenPlumb)
+    gen_main2.extra(ctx, out, 30, 300)
+    gen_plumb.extra(ctx, out, 16, 150)      # Main2_fx_valued_zero_sem / _multi: semantic side condition only (coq/GenPlumb)
     return out
 
 
